@@ -46,7 +46,11 @@ Ok(W) == [ok |-> TRUE, w |-> W]
 RECURSIVE SumSeq(_, _)
 SumSeq(f, s) == IF s = <<>> THEN 0 ELSE f[Head(s)] + SumSeq(f, Tail(s))
 SumStake(W, p) == SumSeq([c \in Chains |-> W.e[p][c].stake], W.m[p].chains)
-RemoveFromSeq(s, x) == SelectSeq(s, LAMBDA y : y # x)
+\* lavaslices.Remove: the last element takes the place of the removed one
+RemoveFromSeq(s, x) == LET n == Len(s) IN
+  IF \A i \in 1..n : s[i] # x THEN s
+  ELSE LET i == CHOOSE j \in 1..n : s[j] = x /\ \A k \in 1..(j - 1) : s[k] # x IN
+       [k \in 1..(n - 1) |-> IF k = i THEN s[n] ELSE s[k]]
 RECURSIVE SumSet(_, _)
 SumSet(f, S) == IF S = {} THEN 0 ELSE LET x == CHOOSE y \in S : TRUE IN f[x] + SumSet(f, S \ {x})
 
@@ -279,6 +283,11 @@ GenNext ==
   \/ LET t == PickOk(Provs \X Chains \X StakeAmts \X Vals,
                      LAMBDA x : ~e[x[1]][x[2]].on /\ StakeW(World, x[1], x[2], x[3], x[4]).ok)
      IN Stake(t[1], t[2], t[3], t[4])
+  \/ LET t == PickOk(Provs \X Chains \X StakeAmts \X Vals,
+                     LAMBDA x : ~e[x[1]][x[2]].on /\ m[x[1]].on /\ StakeW(World, x[1], x[2], x[3], x[4]).ok)
+     IN Stake(t[1], t[2], t[3], t[4])                \* another chain for an already staked provider
+  \/ LET t == PickOk(Provs \X Chains \X Chains \X StakeAmts, LAMBDA x : MoveW(World, x[1], x[2], x[3], x[4]).ok)
+     IN MoveStake(t[1], t[2], t[3], t[4])
   \/ LET t == PickOk(Provs \X Chains \X Chains \X StakeAmts, LAMBDA x : MoveW(World, x[1], x[2], x[3], x[4]).ok)
      IN MoveStake(t[1], t[2], t[3], t[4])
   \/ LET t == PickOk(Provs \X Chains \X Vals, LAMBDA x : UnstakeW(World, x[1], x[2], TRUE, x[3]).ok)
